@@ -368,6 +368,20 @@ func main() {
 			switch *mode {
 			case "c05":
 				switch {
+				case x < 4:
+					// the flow updated last is exported and removed by an inactive expiry, and the very next record
+					// carries the same 5-tuple: a new flow, nothing of the old one
+					kd := flowKind[k][r.Intn(len(flowKind[k]))]
+					s.ingest(s.mkRec(r, k, kd, false, false))
+					s.advance(3)
+					s.scan(nil)
+					if !s.holds(k) {
+						delete(flowKind, k)
+						s.forget(k)
+						flowKind[k] = []string{kinds[[]int{0, 1}[r.Intn(2)]]}
+					}
+					s.ingest(s.mkRec(r, k, flowKind[k][0], false, false))
+					s.ingest(s.mkRec(r, k, flowKind[k][0], false, false))
 				case x < 70:
 					kd := flowKind[k][r.Intn(len(flowKind[k]))]
 					s.ingest(s.mkRec(r, k, kd, false, r.Intn(4) == 0))
